@@ -84,6 +84,13 @@ def run(tier, seed):
     verdict = vp.Verdict(PID)
     quick = tier != "thorough"
     bes_info, bes_viols, states, trans, bes_chosen = bes_part(bd, wd, seed, quick)
+    # design-level: the single-flight protocol (computing table + Notify) as coded
+    sf = vp.tlc("MCEngineConc", cfg="EngineConc.cfg", workers=4, timeout=600, check_ok=False)
+    sfl = vp.tlc("MCEngineConc", cfg="EngineConc_live.cfg", workers=2, timeout=600, check_ok=False)
+    single_flight_model = {"SingleFlight_OncePerEpoch_NoOrphanWaiter_hold": sf["ok"], "states": sf["distinct"],
+                           "Progress_under_weak_fairness_holds": sfl["ok"], "liveness_states": sfl["distinct"]}
+    states += sf["distinct"] + sfl["distinct"]
+    trans += sf["generated"] + sfl["generated"]
     for path, origin, v in bes_viols[:3]:
         evs = vp.read_ndjson(path)
         run_events, start = vp.run_containing(evs, v["at"])
@@ -149,6 +156,7 @@ def run(tier, seed):
         "samples": [{"backward_edge_set_schedule": bes_chosen[0]},
                     {"engine_run_plan": [p[:3] for p in plans]}],
         "backward_edge_set": bes_info,
+        "single_flight_protocol_model": single_flight_model,
         "engine_runs": nruns,
         "events_validated": events,
         "checked": stats,
@@ -195,6 +203,9 @@ def selftest(seed):
     res, _ = ec.validate(t2, t2 + ".json")
     ok2 = any(v["kind"] == "overlap" for v in res["viol"])
     print(f"selftest {PID}: injected second Enter flagged as overlap: {ok2}")
-    ok = ok1 and ok2
+    late = vp.tlc("MCEngineConc", cfg="EngineConc_late.cfg", workers=2, timeout=300, check_ok=False)
+    ok3 = "Temporal properties were violated" in late["out"] or "Progress was violated" in late["out"]
+    print(f"selftest {PID}: single-flight model with a late Notify subscription loses a wake-up (Progress violated): {ok3}")
+    ok = ok1 and ok2 and ok3
     print("selftest", "passed" if ok else "FAILED")
     return 0 if ok else 2
